@@ -95,8 +95,8 @@ CHECKS = {
         design='§5/C10'),
     'C12': dict(
         text='Explicit-state BFS over angle objects: 18 leaf values x 5 classes, operators + - (and reflected), unary -, abs, '
-             '*k, k*, /k, %k, round(n), == != < > against every leaf, depth 2 over the full alphabet (3 on a 6-value '
-             'sub-alphabet; 3 over the full alphabet in thorough: 80 M transitions), plus one depth-6 expression evaluated '
+             '*k, k*, /k, %k, round(n), == != < > against every leaf, depth 3 over the full alphabet (80 M transitions; '
+             'thorough adds depth 4 on a 6-value sub-alphabet), plus one depth-6 expression evaluated '
              'under all 5^7 assignments of classes to its leaves; oracle = the same operator on the .dec() floats.',
         note='Reference is IEEE float arithmetic on the operands; magnitudes kept below 720 deg.',
         design='§5/C12'),
